@@ -347,10 +347,68 @@ def _symlink(rng, tier):
     return c
 
 
+def _backlog(rng, tier):
+    """a backlog larger than the writer channel (bufferSize 100): 150-260 records are written while the worker is
+    parked inside the rule; Write must block or otherwise deliver every record it accepted"""
+    c = _one(rng, tier, {"kind": "size", "nw": rng.randint(150, 260), "lens": (1, 12)})
+    c["front"] = {"enc": rng.choice(["json", "plain"]), "wire": "file"}
+    if c["kind"] == "size" and c["maxsize"] > 0:
+        c["maxsize"] = rng.choice([2000, 5000, 20000])
+    for sd in c["seeds"]:
+        sd["recs"] = [[r[0] + 840, r[1] + 6] for r in sd["recs"]]     # ids 900.. : away from the 150-260 record ids
+    ws = [e["w"] for e in c["events"] if "w" in e]
+    ds = [e for e in c["events"] if "d" in e][:3]
+    k = rng.randint(0, 20)
+    c["events"] = [{"w": w} for w in ws[:k]] + [{"b": ws[k:]}] + ds
+    return c
+
+
+def _samesec(rng, tier):
+    """size rule, bursts within the wall-clock second in which the rule was created or last rotated: the clock
+    string does not advance, rotation must still happen and no file may exceed maxSize by more than one record.
+    (Backup names coincide then -- the property's proviso fails; HEAD's behaviour is pinned by the model only.)"""
+    rec = rng.choice([64, 200, 1000])
+    c = _one(rng, tier, {"kind": "size", "maxsize": 16 * rec, "nw": rng.randint(20, 30), "lens": (rec, rec),
+                         "maxbackups": rng.choice([0, 0, 2, 3])})
+    stamp = c["now0"]
+    mode = rng.choice(["creation", "creation", "rotation"])
+    k = 0 if mode == "creation" else rng.randint(17, 19)     # the first rotation comes with the 17th record
+    for i, e in enumerate([e for e in c["events"] if "w" in e]):
+        if i < k:
+            stamp = e["w"][2]
+        else:
+            e["w"][2] = stamp
+    return c
+
+
+def _cleanup_gz(rng, tier):
+    """gzip on, maxBackups 1 or 2, clean-up released right after every rotation: the newest maxBackups backups,
+    the just rotated and compressed one included, survive"""
+    rec = rng.choice([5, 9])
+    c = _one(rng, tier, {"kind": "size", "gzip": True, "compress": True, "maxsize": rec * rng.choice([1, 2, 3]),
+                         "maxbackups": rng.choice([1, 2]), "lens": (1, rec), "days": rng.choice([0, 0, 1, 3]),
+                         "nw": rng.randint(8, 14)})
+    evs = []
+    for e in c["events"]:
+        if "d" in e:
+            continue
+        evs.append(e)
+        if "w" in e:
+            evs.append({"d": c["endb"]})
+    c["events"] = evs
+    return c
+
+
 def generate(rng, tier, n):
     out = []
     for i in range(n):
-        if i % 15 in (8, 13):
+        if i % 30 == 11:
+            out.append(_backlog(rng, tier))
+        elif i % 30 in (12, 27):
+            out.append(_samesec(rng, tier))
+        elif i % 30 in (6, 21):
+            out.append(_cleanup_gz(rng, tier))
+        elif i % 15 in (8, 13):
             out.append(_symlink(rng, tier))
         elif i % 15 in (1, 7):
             out.append(_holdgz(rng, tier))
@@ -456,7 +514,7 @@ def encode(case, obs):
                         "compress": r["compress"], "maxsize": r["maxsize"], "maxbackups": r["maxbackups"]})
     if "log" not in obs or "final" not in obs:
         # driver failure: an empty observation falsifies both checkers
-        return "mkcase %s %s %s %s [] [] %s false" % (cfg, seeds, _nm(case["rot0"]), _nm(case["now0"]), setup)
+        return "mkcase %s %s %s %s [] [] %s true false" % (cfg, seeds, _nm(case["rot0"]), _nm(case["now0"]), setup)
     writes = [list(w) for w in _writes(case)]
     front_ok = True
     if case.get("front"):
@@ -485,8 +543,13 @@ def encode(case, obs):
             # more passes than records (the worker saw a record in pieces): an unknown record
             w = writes[e["w"]] if e["w"] < len(writes) else [998, 0, e.get("s") or case["now0"]]
             evs.append("%s (mkrec %s %s) %s" % ("XWriteHold" if case.get("holdgz") else "XWrite", cnat(w[0]), cZ(w[1]), _nm(w[2])))
+    # records that were accepted (Write returned len, nil) but never reached the worker still count as accepted
+    done = sum(1 for e in obs["log"] if e.get("w") is not None)
+    for w in writes[done:] if (case.get("front") or obs.get("aborted")) else []:
+        evs.append("XWrite (mkrec %s %s) %s" % (cnat(w[0]), cZ(w[1]), _nm(w[2] or case["now0"])))
     final = clist([_file(f["name"], f["runs"], f["gz"]) for f in obs["final"]])
-    return "mkcase %s %s %s %s %s %s %s %s" % (cfg, seeds, _nm(case["rot0"]), _nm(case["now0"]), clist(evs), final, setup, cbool(front_ok))
+    return "mkcase %s %s %s %s %s %s %s %s %s" % (cfg, seeds, _nm(case["rot0"]), _nm(case["now0"]), clist(evs), final, setup,
+                                                  cbool(_distinct(case, obs)), cbool(front_ok))
 
 
 def _removed(obs):
@@ -496,6 +559,21 @@ def _removed(obs):
 def nontrivial(case, obs):
     rot = obs.get("rotations", 0)
     return rot >= 2 or (rot >= 1 and _removed(obs) >= 1)
+
+
+def _distinct(case, obs):
+    """the proviso: no clock string chosen for two backup names (measured on the observed rotations)"""
+    chosen = [case["now0"]]
+    ws = _writes(case)
+    rs = [e["r"] for e in case["events"] if "r" in e]
+    for l in obs.get("log", []):
+        if l.get("r") and rs:
+            chosen = chosen[:-1] + [rs.pop(0)[1]]
+        elif l.get("w") is not None and l.get("rot"):
+            chosen.append(l.get("s") or (ws[l["w"]][2] if l["w"] < len(ws) else ""))
+        if len(set(chosen)) != len(chosen):
+            return False
+    return True
 
 
 def bucket(case, obs):
@@ -541,16 +619,7 @@ def bucket(case, obs):
         failed = [f["name"] for f in obs.get("final", []) if f["gz"] in (77, 78)]
         plain = {f["name"] for f in obs.get("final", [])}
         out.append("gzip-fault:" + ("hit" if any(n[:-3] in plain for n in failed) else "not-hit"))
-    chosen = [case["now0"]]
-    ws = _writes(case)
-    rs = [e["r"] for e in case["events"] if "r" in e]
-    dup = False
-    for l in obs.get("log", []):
-        if l.get("r") and rs:
-            chosen = chosen[:-1] + [rs.pop(0)[1]]
-        elif l.get("w") is not None and l.get("rot"):
-            chosen.append(l.get("s") or (ws[l["w"]][2] if l["w"] < len(ws) else ""))
-        dup = dup or len(set(chosen)) != len(chosen)
+    dup = not _distinct(case, obs)
     out.append("hyp:DUPLICATE-BACKUP-NAME" if dup else "hyp:distinct-backup-names")
     if obs.get("errs"):
         out.append("driver-timeout")
